@@ -148,6 +148,7 @@ type endpoint struct {
 	WritesAfterShut int
 	DialsAfterShut  int
 	slowNs          int64 // extra inbound delay (slow node fault)
+	onShutdown      func()
 	yieldOff        bool
 }
 
@@ -422,6 +423,10 @@ func (ep *endpoint) DialAddressTimeout(a Address, timeout time.Duration) (net.Co
 }
 
 func (ep *endpoint) Shutdown() error {
+	if f := ep.onShutdown; f != nil {
+		ep.onShutdown = nil
+		f() // scenario hook: runs while the library is inside transport.Shutdown()
+	}
 	ep.mu.Lock()
 	ep.ShutdownCalls++
 	if !ep.closed {
